@@ -44,7 +44,7 @@ def merge_cov(a: dict, b: dict) -> dict:
         elif isinstance(v, bool) and isinstance(a[k], bool):
             a[k] = (a[k] and v) if k.startswith("exhaustive") else (a[k] or v)
         elif isinstance(v, (int, float)) and isinstance(a[k], (int, float)):
-            a[k] = a[k] + v
+            a[k] = max(a[k], v) if k.startswith("max_") else a[k] + v
         elif isinstance(v, dict) and isinstance(a[k], dict):
             merge_cov(a[k], v)
         elif isinstance(v, list) and isinstance(a[k], list):
